@@ -166,8 +166,15 @@ class TWorld:
     def _step(self, ex, state):
         i, d = self.idx(state), self.dir(state)
         if self.errors and ex.ctx.branch(ERR(i, lift(d))):
-            kind = ex.ctx.choose(3, "error-kind")
+            kind = ex.ctx.choose(4, "error-kind")
             self.failed.append((i, d))
+            self.failed_kind = ["NonReversibleStepError", "ConvergenceError", "IntegratorError", "ConvergenceError"][kind]
+            if kind == 3:
+                # a SUBCLASS of ConvergenceError (solvers are user-replaceable and may raise refined error types): still a convergence error
+                base = ex.interp.module("mici.errors").resolve("ConvergenceError", ex.ctx)
+                from ..pyvc import Cls
+                sub = Cls("UserSolverDivergenceError", [base], {}, module="harness")
+                raise PyRaise(ex.call(sub, ["solver diverged"], {}))
             self.raise_error(ex, ["NonReversibleStepError", "ConvergenceError", "IntegratorError"][kind])
         else:
             ex.ctx.assume(z3.Not(ERR(i, lift(d)))) if self.errors else None
@@ -200,6 +207,20 @@ class TWorld:
             p = to_real(p) if not isinstance(p, float) else z3.RealVal(str(p))
             out = out * (p if v else 1 - p)
         return out
+
+
+def error_flag_matches_kind(ctx, w, stats, tag, suffix=""):
+    """the statistic reported for a trajectory ended by an integrator error names the KIND of the error, by class membership: a NonReversibleStepError
+    (or subclass) sets `non_reversible_step`, a ConvergenceError (or subclass) sets `convergence_error`, a plain IntegratorError sets neither"""
+    kind = getattr(w, "failed_kind", None)
+    if kind is None:
+        return
+    want = {"non_reversible_step": kind == "NonReversibleStepError", "convergence_error": kind == "ConvergenceError"}
+    got = {k: stats.get(k) is True for k in want}
+    ok = got == want
+    ctx.run.ob(tag + "/error-flag-names-the-kind-of-integrator-error" + suffix, core.DISCHARGED if ok else core.FAILED, "pyvc",
+               detail="" if ok else f"integrator.step raised a {kind} (possibly a subclass) but the statistics say {got}",
+               text="non_reversible_step / convergence_error are True exactly for errors that are instances of the corresponding class")
 
 
 def declared_statistics(ctx, w, tr, stats, tag, suffix=""):
@@ -300,7 +321,7 @@ def metropolis(run, it, prop="C01"):
             done = i if i is not None else 0
             ctx.prove(tag + "/error-n_step-counts-completed-steps", lift(stats["n_step"]) == done, text="n_step == number of integrator steps completed before the failing one")
             flags = (stats["non_reversible_step"], stats["convergence_error"])
-            kind_e = [f for f in w.failed]
+            error_flag_matches_kind(ctx, w, stats, tag)
             ctx.run.ob(tag + "/error-draws-nothing", core.DISCHARGED if not w.prob else core.FAILED, "pyvc", detail="" if not w.prob else "a uniform draw was consumed on the error path")
             return
         # no error
@@ -585,6 +606,7 @@ def build_tree(run, it):
             ctx.run.ob(tag + "/base/abort-raises-a-flag-or-is-generic-integrator-error" + c, core.DISCHARGED if nflags <= 1 else core.FAILED, "pyvc", detail=str(nflags))
             ctx.prove(tag + "/base/n_step-counts-completed-steps" + c, dn == len(w.steps), text="n_step is incremented exactly when integrator.step returned (a diverging state was still visited)")
             if w.failed:
+                error_flag_matches_kind(ctx, w, stats, tag + "/base", c)
                 ctx.prove(tag + "/base/failed-step-not-counted" + c, z3.And(dn == 0, to_real(stats["sum_metrop_accept_prob"]) == A0))
             else:
                 # divergence: raised iff the class's divergence test holds for the new state
